@@ -7,6 +7,8 @@ From Sdns Require Export Common.Base Gen.C18 C18.Model C18.Spec.
 From Sdns Require Export C18.Lit.
 Open Scope N_scope.
 
+Inductive sstep := SMut (o : op) (ex wi : list str) | SPersist (i : nat).
+
 Inductive case :=
   (* memory dump (m, wild, w) and Exists() on probe strings *)
 | CaseExists (m wild w : list str) (probes : list (str * bool))
@@ -17,13 +19,19 @@ Inductive case :=
 | CaseHistory (m0 wild0 w : list str) (ops : list (op * N)) (m1 wild1 : list str) (file : option str)
   (* concurrent API traffic, one op list per goroutine on disjoint keys *)
 | CaseConc (m0 wild0 w : list str) (threads : list (list op)) (m1 wild1 : list str) (file : option str)
+  (* forced schedule: the bodies of the API calls split at the point where mu is released —
+     mutation + snapshotLocked (with the order the map iteration produced) and persist() of
+     the i-th outstanding snapshot, interleaved at will; all snapshots persisted at the end *)
+| CaseSched (m0 wild0 w : list str) (steps : list sstep) (m1 wild1 : list str) (file : option str)
   (* restart: configured whitelist/blocklist + directory files in walk order -> memory of the fresh list;
      mem_m/mem_wild is the memory of the list that wrote the files *)
 | CaseReload (whitelist blocklist : list str) (files : list str) (mem_m mem_wild : list str) (re_m re_wild re_w : list str)
   (* interruption: directory held `old`, op was applied by a process that was killed
      when the temp file reached [limit] bytes; directory afterwards; reload of it *)
 | CaseCrash (whitelist : list str) (old : str) (o : op) (limit : nat) (local : option str) (temps : list str)
-            (re_m re_wild : list str).
+            (re_m re_wild : list str)
+            (* reference run without interruption: memory loaded from `old`, memory after the call *)
+            (old_m old_wild new_m new_wild : list str).
 
 (* ---- helpers *)
 Definition subset (a b : list str) : bool := forallb (fun x => mem x b) a.
@@ -71,6 +79,18 @@ Fixpoint run_ops (ops : list (op * N)) (s : sys) : bool * sys :=
       ((ret =? ret') && ok, s'')
   end.
 
+(* run a forced schedule; the recorded snapshot order must be a listing of the memory *)
+Fixpoint run_sched (steps : list sstep) (s : sys) : bool * sys :=
+  match steps with
+  | [] => (true, s)
+  | SMut o ex wi :: r =>
+      let '(_, snapped, b') := apply_op o (s_mem s) in
+      let ok := if snapped then same_set (bm b') ex && same_set (bwild b') wi else is_nil ex && is_nil wi in
+      let '(ok', s') := run_sched r (snd (sys_mutate o ex wi s)) in
+      (ok && ok', s')
+  | SPersist i :: r => run_sched r (sys_persist i s)
+  end.
+
 Definition any_success (ops : list (op * N)) : bool := existsb (fun p => negb (snd p =? 0)) ops.
 
 (* ---- specification side: the three maps as names *)
@@ -87,6 +107,29 @@ Definition equiv_probes (m1 wild1 m2 wild2 : list str) : list str :=
 Definition spec_equiv (w m1 wild1 m2 wild2 : list str) : bool :=
   forallb (fun q => Bool.eqb (spec_blocks m1 wild1 w q) (spec_blocks m2 wild2 w q))
           (equiv_probes m1 wild1 m2 wild2).
+
+(* keys a Set call accepted and no later Remove / RemoveBatch names: listed at the end *)
+Definition mentions_remove (ck : str) (o : op) : bool :=
+  match o with
+  | OpRemove k => str_eqb (canonical k) ck
+  | OpRemoveBatch ks => existsb (fun k => str_eqb (canonical k) ck) ks
+  | _ => false
+  end.
+Fixpoint set_survives (ops : list (op * N)) : list str :=
+  match ops with
+  | [] => []
+  | (OpSet k, r) :: rest =>
+      (if negb (r =? 0) && negb (existsb (fun p => mentions_remove (canonical k) (fst p)) rest)
+       then [canonical k] else []) ++ set_survives rest
+  | _ :: rest => set_survives rest
+  end.
+(* a name the listed key must block: the key itself, or a fresh child for "*.suffix"
+   (none for the root wildcard, which lists nothing under the reading of Spec.v) *)
+Definition listed_probe (ck : str) : option str :=
+  match ck with
+  | 42 :: 46 :: sfx => match sfx with [] => None | [_] => None | _ => Some (fresh_child sfx) end
+  | _ => Some ck
+  end.
 
 Definition whitelist_of (wl : list str) : list str := fold_left (fun w e => add (canonical e) w) wl [].
 
@@ -133,12 +176,18 @@ Definition check_case (c : case) : bool :=
       | None => true
       | Some f => file_is_snapshot (bm b) (bwild b) f
       end
+  | CaseSched m0 wild0 w steps m1 wild1 file =>
+      let '(ok, s) := run_sched steps (mk_sys (mk_bl m0 wild0 w) 0 0 None []) in
+      ok && same_set (bm (s_mem s)) m1 && same_set (bwild (s_mem s)) wild1 &&
+      is_nil (s_pending s) && opt_str_eqb (s_local s) file
   | CaseReload whitelist blocklist files mem_m mem_wild re_m re_wild re_w =>
       let b := load_initial whitelist blocklist files in
       same_set (bm b) re_m && same_set (bwild b) re_wild && same_set (bw b) re_w
-  | CaseCrash whitelist old o limit local temps re_m re_wild =>
+  | CaseCrash whitelist old o limit local temps re_m re_wild old_m old_wild new_m new_wild =>
       let b0 := load_initial whitelist [] [old] in
       let '(_, snapped, b1) := apply_op o b0 in
+      same_set (bm b0) old_m && same_set (bwild b0) old_wild &&
+      same_set (bm b1) new_m && same_set (bwild b1) new_wild &&
       let lines := bm b1 ++ List.map (app persist_wildp) (bwild b1) in
       let total := Datatypes.length (snap_bytes (snapshot_of 1 b1)) in
       snapped &&
@@ -176,23 +225,30 @@ Definition spec_case (c : case) : bool :=
       match file with
       | Some f => file_is_snapshot m1 wild1 f
       | None => negb (any_success ops)
-      end
+      end &&
+      (* what Set accepted and nobody removed is blocked *)
+      forallb (fun ck => match listed_probe ck with Some q => spec_blocks m1 wild1 w q | None => true end)
+              (set_survives ops)
   | CaseConc m0 wild0 w threads m1 wild1 file =>
       match file with
       | Some f => file_is_snapshot m1 wild1 f
       | None => same_set m0 m1 && same_set wild0 wild1
       end
+  | CaseSched m0 wild0 w steps m1 wild1 file =>
+      (* whatever the order in which the snapshots reached persist(), the file is the memory *)
+      match file with
+      | Some f => file_is_snapshot m1 wild1 f
+      | None => negb (existsb (fun st => match st with SMut _ ex wi => negb (is_nil ex && is_nil wi) | _ => false end) steps)
+      end
   | CaseReload whitelist blocklist files mem_m mem_wild re_m re_wild re_w =>
       (* the reloaded list blocks exactly the names the memory that was persisted blocks *)
       same_set (whitelist_of whitelist) re_w &&
       spec_equiv re_w mem_m mem_wild re_m re_wild
-  | CaseCrash whitelist old o limit local temps re_m re_wild =>
+  | CaseCrash whitelist old o limit local temps re_m re_wild old_m old_wild new_m new_wild =>
       let w := whitelist_of whitelist in
-      let b0 := load_initial whitelist [] [old] in
-      let b1 := snd (apply_op o b0) in
       (* `local` is the complete previous file or the complete new one ... *)
       (opt_str_eqb local (Some old) ||
-       match local with Some f => file_is_snapshot (bm b1) (bwild b1) f | None => false end) &&
+       match local with Some f => file_is_snapshot new_m new_wild f | None => false end) &&
       (* ... and a restart comes back with the previous list or the new one *)
-      (spec_equiv w (bm b0) (bwild b0) re_m re_wild || spec_equiv w (bm b1) (bwild b1) re_m re_wild)
+      (spec_equiv w old_m old_wild re_m re_wild || spec_equiv w new_m new_wild re_m re_wild)
   end.
